@@ -985,7 +985,12 @@ func TestVerifC16KnownTempSetLeak(t *testing.T) {
 	main := cfg.NameForMainIPSet("s:ipA")
 	k.MustExec("create "+main+" hash:ip family inet maxelem 1024", "add "+main+" 10.0.0.1")
 	s := ipsets.NewIPSetsWithShims(cfg, c16NoopRecorder{}, k.NewCmd, k.Sleep, k.Now)
-	// maxelem differs from the kernel's: Felix must go through a temporary set and swap.
+	// First get in sync (the start-of-day full resync would otherwise hide the problem, because
+	// it is repeated on every retry until the first success).
+	s.AddOrReplaceIPSet(ipsets.IPSetMetadata{SetID: "s:ipA", Type: ipsets.IPSetTypeHashIP, MaxSize: 1024}, []string{"10.0.0.1"})
+	s.ApplyUpdates(nil)
+	s.ApplyDeletions()
+	// maxelem now differs from the kernel's: Felix must go through a temporary set and swap.
 	s.AddOrReplaceIPSet(ipsets.IPSetMetadata{SetID: "s:ipA", Type: ipsets.IPSetTypeHashIP, MaxSize: 65536},
 		[]string{"10.0.0.1", "10.0.0.2"})
 	// stdin breaks on the 2nd line Felix writes (the tool has consumed "create cali4t0 …").
@@ -1007,5 +1012,51 @@ func TestVerifC16KnownTempSetLeak(t *testing.T) {
 	if k.Exists("cali4t0") {
 		t.Fatalf("%s: temp set cali4t0 still exists after ApplyUpdates+ApplyDeletions returned success; kernel sets=%v\ncommands:\n  %s",
 			c16KnownTempLeak, k.Names(), strings.Join(lines, "\n  "))
+	}
+}
+
+// TestVerifC16KnownMarkInherited is the deterministic confirmation of finding
+// c16KnownMarkInherited (it FAILS while the finding reproduces).
+func TestVerifC16KnownMarkInherited(t *testing.T) {
+	ev.Quiet()
+	k := ktsim.NewIPSetKernel()
+	cfg := ipsets.NewIPVersionConfig(ipsets.IPFamilyV4, "cali", []string{"felix-", "cali"}, nil)
+	main := cfg.NameForMainIPSet("s:ipA")
+	s := ipsets.NewIPSetsWithShims(cfg, c16NoopRecorder{}, k.NewCmd, k.Sleep, k.Now)
+	meta := ipsets.IPSetMetadata{SetID: "s:ipA", Type: ipsets.IPSetTypeHashIP, MaxSize: 1024}
+	s.AddOrReplaceIPSet(meta, []string{"10.0.0.1"})
+	s.ApplyUpdates(nil)
+	s.ApplyDeletions()
+	// The set is removed, but its destroy fails once (e.g. still referenced): Felix marks it
+	// "destroy failed, skip until next resync".
+	s.RemoveIPSet("s:ipA")
+	s.ApplyUpdates(nil)
+	k.DestroyFaults = []bool{true}
+	s.ApplyDeletions()
+	if !k.Exists(main) {
+		t.Fatalf("set-up failed: %s should have survived the failed destroy", main)
+	}
+	// The set is wanted again; Felix goes through a temporary set because the stored metadata
+	// (with the mark) differs from the desired metadata.  The restore session fails after the
+	// temp set was created, before the swap.
+	s.AddOrReplaceIPSet(meta, []string{"10.0.0.1", "10.0.0.2"})
+	k.RestoreFaults = []ktsim.RestoreFault{{Kind: "line", At: 2}}
+	s.ApplyUpdates(nil) // retries internally, returns normally
+	for i := 0; i < 10 && s.ApplyDeletions(); i++ {
+		s.ApplyUpdates(nil)
+	}
+	got, _ := k.Get(main)
+	if fmt.Sprint(got.Members) != "[10.0.0.1 10.0.0.2]" {
+		t.Fatalf("main set did not converge: %v", got)
+	}
+	var lines []string
+	for _, e := range k.Log {
+		lines = append(lines, fmt.Sprintf("%s#%d %q err=%q", e.Cmd, e.CmdSeq, e.Line, e.Err))
+	}
+	for _, n := range k.Names() {
+		if cfg.IsTempIPSetName(n) {
+			t.Fatalf("%s: temp set %s (never the target of a failed destroy) is still there after apply cycles ran until no reschedule was requested; commands:\n  %s",
+				c16KnownMarkInherited, n, strings.Join(lines, "\n  "))
+		}
 	}
 }
